@@ -73,7 +73,7 @@ TrSend == /\ Is("Send") /\ l' = l + 1
           /\ sent' = [sent EXCEPT ![Ev.dir] = @ + Ev.n]
           \* the peer of a gracefully closed end speaks again: clause (b) no longer applies
           /\ tail' = (tail /\ Ev.e = ender)
-          /\ UNCHANGED <<viol, cfg, delivered, attached, ended, ender, stale>>
+          /\ UNCHANGED <<viol, cfg, delivered, attached, ended, ender, stale, void>>
 
 TrAttach == /\ Is("Attach") /\ l' = l + 1 /\ attached' = TRUE
             /\ UNCHANGED <<viol, cfg, sent, delivered, ended, ender, tail, stale, void>>
@@ -91,8 +91,8 @@ TrDeliver ==
 
 \* replace: the source client re-opened the tunnel on a new connection.  The statement does not speak
 \* about reconnects; the judge keeps demanding the pipe clauses for the logical source end only after a
-\* clean handover (clean = the bridge was already copying, or nothing unread was left on the old
-\* connection); otherwise nothing is demanded for s2t any more.
+\* clean handover (clean = nothing the source wrote on the old connection was still unread there);
+\* otherwise nothing is demanded for s2t any more.
 TrEnv == /\ Is("Env") /\ l' = l + 1
          /\ stale' = (IF Ev.a = "replace" THEN TRUE ELSE IF Ev.a = "closeold" THEN FALSE ELSE stale)
          /\ void' = (IF Ev.a = "replace" /\ ~Ev.clean THEN void \cup {"s2t"} ELSE void)
